@@ -65,6 +65,9 @@ class Universe:
             ops.append(("nack", x))
             ops.append(("pli", x))
             ops.append(("remb-media", x))     # REMB whose media_ssrc names a sender and whose list is empty
+            for reps in subsets(self.ssrcs):
+                if reps:
+                    ops.append(("remb-media", x, tuple(reps)))     # ... and whose list names (further) senders
         ops.append(("sdes",))
         ops.append(("remb-bad",))
         self.ops = ops
@@ -87,7 +90,7 @@ def make_packet(op):
     if k == "remb":
         return R.RtcpPsfbPacket(fmt=15, ssrc=99, media_ssrc=0, fci=R.pack_remb_fci(100000, list(op[1])))
     if k == "remb-media":
-        return R.RtcpPsfbPacket(fmt=15, ssrc=99, media_ssrc=op[1], fci=R.pack_remb_fci(100000, []))
+        return R.RtcpPsfbPacket(fmt=15, ssrc=99, media_ssrc=op[1], fci=R.pack_remb_fci(100000, list(op[2]) if len(op) > 2 else []))
     if k == "remb-bad":
         return R.RtcpPsfbPacket(fmt=15, ssrc=99, media_ssrc=0, fci=b"XXXX\x01\x00\x00\x00")
     if k == "nack":
@@ -174,6 +177,8 @@ class Model:
         elif k in ("nack", "pli", "remb-media"):
             if op[1] in self.snd:
                 out.add(self.snd[op[1]])
+            if k == "remb-media" and len(op) > 2:
+                out |= {self.snd[x] for x in op[2] if x in self.snd}
         return frozenset(out)
 
 
@@ -331,8 +336,12 @@ class Endpoint(Named):
     async def _handle_rtp_packet(self, packet, arrival_time_ms):
         self.log.append((self.name, "rtp", packet.ssrc, packet.payload_type))
 
+    on_rtcp = None
+
     async def _handle_rtcp_packet(self, packet):
         self.log.append((self.name, "rtcp", type(packet).__name__))
+        if self.on_rtcp is not None:
+            await self.on_rtcp()
 
     def _handle_disconnect(self):
         pass
@@ -386,6 +395,52 @@ def transport_history(U, hist):
         loop.uninstall()
 
 
+def compound_family(T):
+    """Compound RTCP datagrams [p1, p2] with p1 routed to one endpoint and p2 to another: the first endpoint's handler yields
+    and, while it does, the second endpoint is unregistered - "once unregistered nothing is routed to it again, for any
+    interleaving" - and the same with the handler merely yielding (then both are delivered)."""
+    import asyncio
+    global _CERT
+    if _CERT is None:
+        _CERT = D.RTCCertificate.generateCertificate()
+    to_recv = [("sr", 1, ()), ("bye", (1,))]
+    to_send = [("rr", (2,)), ("nack", 2), ("pli", 2), ("remb", (2,)), ("remb-media", 2), ("remb-media", 2, (2,))]
+    n = 0
+    for first_is_recv in (True, False):
+        for a in (to_recv if first_is_recv else to_send):
+            for b in (to_send if first_is_recv else to_recv):
+                for unregister in (True, False):
+                    n += 1
+                    loop = VLoop().install()
+                    try:
+                        t = D.RTCDtlsTransport(FakeIce(), [_CERT])
+                        log = []
+                        r1, s1 = Endpoint("r1", log), Endpoint("s1", log, ssrc=2)
+                        t._register_rtp_receiver(r1, RTCRtpReceiveParameters(
+                            codecs=[RTCRtpCodecParameters(mimeType="video/VP8", clockRate=90000, payloadType=96)],
+                            encodings=[RTCRtpDecodingParameters(ssrc=1, payloadType=96)]))
+                        t._register_rtp_sender(s1, RTCRtpSendParameters())
+                        e1, e2 = (r1, s1) if first_is_recv else (s1, r1)
+
+                        async def hook(e2=e2):
+                            await asyncio.sleep(0)
+                            if unregister:
+                                (t._unregister_rtp_sender if e2 is s1 else t._unregister_rtp_receiver)(e2)
+                        e1.on_rtcp = hook
+                        loop.run_until(t._handle_rtcp_data(bytes(make_packet(a)) + bytes(make_packet(b))))
+                        got = [x[0] for x in log]
+                        want = [e1.name] if unregister else [e1.name, e2.name]
+                        if got != want:
+                            T.violation("transport/compound/%s" % ("unregistered-meanwhile" if unregister else "plain"), "transport/compound",
+                                        "compound [%r, %r], the handler of %s yields%s: handlers invoked on %r, expected %r" % (
+                                            a, b, e1.name, " and " + e2.name + " is unregistered meanwhile" if unregister else "", got, want),
+                                        dict(kind="compound", a=list(a), b=list(b)))
+                    finally:
+                        loop.uninstall()
+    T.case(None, n)
+    T.count("compound-datagrams-with-a-yielding-handler", n)
+
+
 def transport_task(task):
     depth, shard, nshard = task
     U = Universe(2, 1, [1, 2], [96])
@@ -437,6 +492,7 @@ def run(tier, seed):
     ns = 16
     tt = pmap("props.c12", "transport_task", [(depth, s, ns) for s in range(ns)], seed=seed)
     total.merge(tt)
+    compound_family(total)
     total.distinct = states + tt.distinct
     return result(
         PID, total,
@@ -444,10 +500,10 @@ def run(tier, seed):
              "types): canonical state = every attribute of the router (tables sorted, endpoints named), successors = the whole "
              "alphabet (register_receiver with every subset of SSRCs x every subset of payload types, unregister, register/"
              "unregister sender, RTP with every (ssrc, pt) incl. an unregistered pt, SR/RR/BYE/REMB with every SSRC subset, NACK, "
-             "PLI, REMB by media ssrc, SDES, malformed REMB) applied in EVERY reachable state and compared with a dict-based "
+             "PLI, REMB by media ssrc with and without an SSRC list, SDES, malformed REMB) applied in EVERY reachable state and compared with a dict-based "
              "reference model on every transition; plus all histories of length <= %d ending in a packet through the real "
              "RTCDtlsTransport registration + _handle_rtp_data/_handle_rtcp_data with serialised packets (callbacks invoked vs "
-             "model). states = reachable canonical router states" % depth,
+             "model), and 48 compound datagrams whose first handler yields while the second packet's recipient is (or is not) unregistered. states = reachable canonical router states" % depth,
         assumptions=["universe bounded as listed; mid is not used for routing by the implementation and is left out"],
         states=states,
         extra=dict(universes=[dict(receivers=u[0], senders=u[1], ssrcs=u[2], payload_types=u[3]) for u in universes],
@@ -461,6 +517,12 @@ def replay(rep):
 
     def tup(o):
         return tuple(tuple(x) if isinstance(x, list) else x for x in o)
+    if r["kind"] == "compound":
+        T = Tally()
+        compound_family(T)
+        for v in T.violations.values() if isinstance(T.violations, dict) else T.violations:
+            print("FAILS", v if isinstance(v, str) else v.get("detail", v))
+        return 1 if T.violations else 0
     hist = [tup(o) for o in r["history"]]
     if r["kind"] == "router":
         router, model = D.RtpRouter(), Model()
